@@ -1,2 +1,3 @@
 CONSTANTS
   N = 1
+  Offsets = {0, 3, 6, 9, 12, 15, 18, 21, 24, 27}
